@@ -41,7 +41,11 @@ def delaunay_mesh(rng: random.Random, n: int, kind: str = "random", smooth: int 
     from scipy.spatial import Delaunay
     from tdgl.finite_volume.mesh import Mesh
     from tdgl.finite_volume.util import triangle_areas
-    for _ in range(30):
+    if kind == "random" and n > 60:
+        smooth = 0        # smoothing a random Delaunay mesh makes malformed (non-convex) Voronoi cells
+    for attempt in range(40):
+        if attempt == 30:
+            smooth = 0
         pts = random_points(rng, n, kind)
         tri = Delaunay(pts)
         simp = tri.simplices
